@@ -1,13 +1,18 @@
 (* C16  Statement separation, whitespace and comments do not change meaning.
    Proved for all inputs: ParseQuery's result depends on its input only through the answers of the four
    instructions (so any two texts whose lexer states are related by an instruction-preserved relation
-   — same token kinds, non-whitespace literals, rune classes — parse to the same statements).  PARTIAL:
-   that a whitespace-for-whitespace substitution produces such related states is a lexer fact that is
-   not proved here; it, the comment cases and the separator rules are evaluated on the implementation at
-   every gap of generated statements and on joined queries (harness/c16.go), with the model compared on
-   the same texts.  The comment rule is false at raw-rune lookahead sites (known finding, witness below). *)
+   — same token kinds, non-whitespace literals, rune classes — parse to the same statements).  At the lexer,
+   for all texts: a gap is ONE WS token whatever whitespace it is spelled with (CR and CRLF included), a comment
+   is ONE COMMENT token, and the tokens and literals behind the gap do not depend on its spelling or on a
+   comment inside it (C16_gap_spelling_irrelevant, C16_comment_in_gap, C16_same_text_same_tokens).  PARTIAL:
+   the composition of the two - that the parser programs, which also look at raw runes, cannot tell the
+   related lexer states apart - is not a theorem; it, the comment cases and the separator rules are evaluated on
+   the implementation at every gap of generated statements and on joined queries (harness/c16.go), with the model
+   compared on the same texts.  The comment rule is false at raw-rune lookahead sites (known finding, witness below). *)
 From InfluxQL Require Import Base.Prelude Base.Oracles Lex.Token Lex.Reader Lex.Scanner Ast.Ast Parse.Instr
   Parse.ParseExpr Parse.ParseStmts Proofs.ParserProofs.
+From InfluxQL Require Import Lex.Reader Lex.Scanner Proofs.ReaderProofs Proofs.GapProofs.
+From InfluxQL Require Import Lex.StreamLex Proofs.RingAt Proofs.RingRefine Proofs.LexTiling Proofs.GapStream.
 
 Theorem C16_query_depends_on_instruction_answers_only :
   forall ulower (R : pstate -> pstate -> Prop),
@@ -54,3 +59,66 @@ Example C16_example_separators :
   parse_q (ts ";; SHOW USERS ;;SHOW DATABASES; ") = Ok [ShowUsers; ShowDatabases] /\
   is_ok (parse_q (ts "SHOW USERS SHOW DATABASES")) = false.
 Proof. vm_compute. split; reflexivity. Qed.
+
+(* at the lexer a gap is one token whatever it is made of: any run of blanks, tabs and line feeds in front of a rune
+   that is not one scans as ONE WS token, and the reader stops at that rune (pushed back) *)
+Theorem C16_gap_is_one_token : forall ulower c w rest r,
+  wf r -> is_whitespace c = true -> blank_text w -> ends_gap rest -> r_src r = c :: w ++ rest ->
+  exists p r', scan ulower r = ((WS, p, c :: w), r') /\
+    ((rest = [] /\ wf r' /\ r_src r' = []) \/
+     (exists d rest' r0, rest = d :: rest' /\ r' = unread r0 /\ wf r0 /\ r_src r0 = rest' /\ fst (curr r0) = d)).
+Proof. exact scan_gap. Qed.
+Print Assumptions C16_gap_is_one_token.
+
+(* two spellings of one gap leave the lexer in front of the same text with the same rune pushed back; the parser's
+   programs see a WS token in both cases and, by C16_query_depends_on_instruction_answers_only, nothing else *)
+Theorem C16_gaps_agree : forall ulower c1 w1 c2 w2 d rest' r1 r2,
+  wf r1 -> wf r2 -> is_whitespace c1 = true -> is_whitespace c2 = true -> blank_text w1 -> blank_text w2 ->
+  is_whitespace d = false -> d <> 13 -> d <> 0 ->
+  r_src r1 = c1 :: w1 ++ d :: rest' -> r_src r2 = c2 :: w2 ++ d :: rest' ->
+  exists p1 p2 a1 a2, scan ulower r1 = ((WS, p1, c1 :: w1), unread a1) /\ scan ulower r2 = ((WS, p2, c2 :: w2), unread a2) /\
+    wf a1 /\ wf a2 /\ r_src a1 = rest' /\ r_src a2 = rest' /\ fst (curr a1) = d /\ fst (curr a2) = d.
+Proof. exact gaps_agree. Qed.
+Print Assumptions C16_gaps_agree.
+
+(* a block comment (body without a star) is one COMMENT token and the reader stands right behind it *)
+Theorem C16_comment_is_one_token : forall ulower b rest r,
+  wf r -> comment_body b -> r_src r = 47 :: 42 :: b ++ 42 :: 47 :: rest ->
+  exists p r', scan ulower r = ((COMMENT, p, []), r') /\ wf r' /\ r_src r' = rest.
+Proof. exact scan_block_comment. Qed.
+Print Assumptions C16_comment_is_one_token.
+
+(* [at_ r t]: the exact reader r (3-slot ring, pushback, CR folding) will deliver the CR-folded text t.
+   Two spellings of one gap, of any lengths, in front of the same text: each scans as one WS token followed by
+   the same tokens and literals, to any depth f *)
+Theorem C16_gap_spelling_irrelevant : forall ulower f r1 r2 c1 w1 c2 w2 d rest,
+  at_ r1 (c1 :: w1 ++ d :: rest) -> at_ r2 (c2 :: w2 ++ d :: rest) -> r_n r1 <= 2 -> r_n r2 <= 2 ->
+  is_whitespace c1 = true -> is_whitespace c2 = true -> ws_text w1 -> ws_text w2 -> is_whitespace d = false -> d <> 0 ->
+  exists tail,
+    map tl_of (fst (scan_all ulower (S f) r1 [])) = (WS, c1 :: w1) :: tail /\
+    map tl_of (fst (scan_all ulower (S f) r2 [])) = (WS, c2 :: w2) :: tail.
+Proof. exact gap_spelling. Qed.
+Print Assumptions C16_gap_spelling_irrelevant.
+
+(* a block comment flanked by whitespace in place of plain whitespace: WS COMMENT WS instead of WS, same tokens behind *)
+Theorem C16_comment_in_gap : forall ulower f r1 r2 c1 w1 b c3 w3 c2 w2 d rest,
+  at_ r1 (c1 :: w1 ++ 47 :: 42 :: b ++ 42 :: 47 :: c3 :: w3 ++ d :: rest) -> at_ r2 (c2 :: w2 ++ d :: rest) ->
+  r_n r1 <= 2 -> r_n r2 <= 2 ->
+  is_whitespace c1 = true -> is_whitespace c2 = true -> is_whitespace c3 = true -> ws_text w1 -> ws_text w2 -> ws_text w3 ->
+  block_body b -> is_whitespace d = false -> d <> 0 ->
+  exists tail,
+    map tl_of (fst (scan_all ulower (S (S (S f))) r1 [])) = (WS, c1 :: w1) :: (COMMENT, []) :: (WS, c3 :: w3) :: tail /\
+    map tl_of (fst (scan_all ulower (S f) r2 [])) = (WS, c2 :: w2) :: tail.
+Proof. exact comment_in_gap. Qed.
+Print Assumptions C16_comment_in_gap.
+
+(* readers that deliver the same text produce the same tokens and literals, whatever is in their rings *)
+Theorem C16_same_text_same_tokens : forall ulower f r1 r2 t, at_ r1 t -> at_ r2 t -> r_n r1 <= 2 -> r_n r2 <= 2 ->
+  map tl_of (fst (scan_all ulower f r1 [])) = map tl_of (fst (scan_all ulower f r2 [])).
+Proof. exact same_text_same_tokens. Qed.
+Print Assumptions C16_same_text_same_tokens.
+
+(* non-vacuity: the gap " \r\n\t" in front of "b"; CR LF folds to LF in the delivered text *)
+Example C16_gap_example :
+  at_ (new_reader ([32; 13; 10; 9; 98] : text)) (32 :: [10; 9] ++ 98 :: []).
+Proof. exact (at_new [32; 13; 10; 9; 98]). Qed.
